@@ -27,6 +27,51 @@ def rules(ctx):
     c052(ctx)
     c053(ctx)
     C04.c045(ctx)
+    c055(ctx)
+
+
+def c055(ctx):
+    R = "C05.5"
+    ctx.declare(R, "the collector judges every key by its own tombstones: per-key scratch state is reset whenever the key changes")
+    f = ctx.fn(R, "sst::gc::GarbageCollector::next")
+    if not f:
+        return
+    ret = ctx.calls(R, f, r"sst::gc::Determiner::retain$")
+    # the per-key accumulator = the local handed (by reference) to Determiner::retain as the tombstone list
+    acc = set()
+    for p_ in ret:
+        acc |= {l for l in K.user_locals(f, P.term_at(f, p_)["args"][2]) if f.locals[l].startswith("alloc::vec::Vec<u64")}
+    ctx.check(R, f, "accumulator", len(acc) == 1, "retain() is given one local tombstone list", "cannot identify the tombstone accumulator (%s)" % sorted(acc))
+    if len(acc) != 1:
+        return
+    a = next(iter(acc))
+    # (re)initialisations: whole-local definitions of the accumulator, or Vec::clear(&mut acc)
+    reinit = [pt for pt, kind, _pl in P.defs(f).of(a) if kind in ("call", "assign")]
+    for p_ in P.call_points(f, r"alloc::vec::Vec.*::clear$"):
+        if a in K.base_locals(f, P.term_at(f, p_)["args"][0]):
+            reinit.append(p_)
+    # uses: retain / push / return_key involving the accumulator
+    uses = []
+    for b, t in f.calls():
+        ck = callee_skey(t) or ""
+        if re.search(r"Determiner::retain$|alloc::vec::Vec.*::push$|GarbageCollector::return_key$", ck):
+            if any(a in K.base_locals(f, x) or (x.get("k") in ("move", "copy") and x["pl"]["l"] == a) for x in t["args"]):
+                uses.append(P.term_pt(f, b.idx))
+    ctx.floor(R, "uses of the tombstone list", len(uses), 3)
+    # key switches: writes into self.key_backing
+    sw = [p_ for p_ in P.call_points(f, r"::(copy_from_slice|resize|clear|extend_from_slice|clone_from)$") if "key_backing" in K.arg_field_names(f, p_, 0)]
+    ctx.floor(R, "key switch sites (writes to key_backing)", len(sw), 1)
+    for k in sw:
+        p_ = P.reach(f, P.after(f, k), uses, avoid=set(reinit))
+        ctx.check(R, f, "reset-on-key-change", p_ is None, "after the current key changes, the tombstone list is re-created before it is pushed to or consulted",
+                  "tombstones collected for one key survive the switch to the next key: the determiner counts them against the neighbour's live value",
+                  pt=k, path=p_)
+    # a retained value with pending tombstones hands the list over (moved into return_key), and a rejected one restarts
+    for p_ in ret:
+        rk = set(P.call_points(f, r"GarbageCollector::return_key$"))
+        nxt = P.reach(f, P.after(f, p_), [u for u in uses if u not in rk], avoid=set(reinit) | rk)
+        ctx.check(R, f, "reset-after-verdict", nxt is None, "after retain() answered, the list is either handed to return_key or re-created",
+                  "the tombstone list is reused after the determiner's verdict without being reset", pt=p_, path=nxt)
 
 
 def c051(ctx):
